@@ -513,14 +513,39 @@ impl IntoIterator for OutputList {
     }
 }
 
+/// The text of an XML comment must not contain "--" or end with '-', and there is no
+/// way to escape them: keep adjacent hyphens apart with a space.
+fn comment_text(c: &str) -> String {
+    let mut out = String::with_capacity(c.len());
+    let mut prev_hyphen = false;
+    for ch in c.chars() {
+        if ch == '-' && prev_hyphen {
+            out.push(' ');
+        }
+        out.push(ch);
+        prev_hyphen = ch == '-';
+    }
+    if prev_hyphen {
+        out.push(' ');
+    }
+    out
+}
+
 impl<'a> From<OutputEvent> for Event<'a> {
     fn from(svg_ev: OutputEvent) -> Event<'a> {
         match svg_ev {
             OutputEvent::Empty(e) => Event::Empty(e.into_bytesstart()),
             OutputEvent::Start(e) => Event::Start(e.into_bytesstart()),
-            OutputEvent::Comment(t) => Event::Comment(BytesText::from_escaped(t)),
+            OutputEvent::Comment(t) => Event::Comment(BytesText::from_escaped(comment_text(&t))),
             OutputEvent::Text(t) => Event::Text(BytesText::from_escaped(t)),
-            OutputEvent::CData(t) => Event::CData(BytesCData::new(t)),
+            OutputEvent::CData(t) => {
+                if t.contains("]]>") {
+                    // would end the section early: the same character data as escaped text
+                    Event::Text(BytesText::new(&t).into_owned())
+                } else {
+                    Event::CData(BytesCData::new(t))
+                }
+            }
             OutputEvent::End(name) => Event::End(BytesEnd::new(name)),
             OutputEvent::Other(e) => e,
         }
